@@ -56,6 +56,21 @@ def gen_cases(rng, tier, count=None):
                 L["seed"] = int(rng.integers(1 << 30))
             c["variant"] = {"labels": L}
         out.append(c)
+    for i in range(240 if tier == "quick" else 2400):
+        # POO over the tree bandits on partitions that draw from NumPy's generator when they split (d >= 2, random
+        # partitions), noisy rewards, the recommendation asked after every round: a query that lets the best learner
+        # do (part of) its next step early shifts the generator's draws between the learners
+        algo = ["POO_VHCT", "POO_VHCT", "POO_VHCT", "POO_VHCT", "POO_HCT", "POO_T_HOO"][i % 6]
+        c = TW.safe_case(rng, algo, tier, part=str(rng.choice(["Bin", "K3", "RBin", "RK3", "K2"])),
+                         dim=int(rng.integers(2, 4)), n_choices=[500, 600, 700],
+                         fams=["noisy", "unit", "drift", "noisy", "large_off"])
+        # many learners (rhomax near its default 0.9), smoothness near its default
+        c["params"]["rhomax"] = float(rng.uniform(0.8, 0.95))
+        c["params"]["nu"] = float(10 ** rng.uniform(-0.3, 0.3))
+        c["T"] = c["n"]
+        c["variant"] = {"queries": list(range(c["T"]))}
+        c["_cost"] = 4.0
+        out.append(c)
     return out
 
 
